@@ -88,6 +88,7 @@ impl Property for P {
                             })
                             .collect(),
                         realtime_ms: 0,
+                        aligned_starts: 0,
                     })
             })
             .boxed()
@@ -115,8 +116,21 @@ impl Property for P {
             t0: crate::vtime::VInst::default_inst(),
             runs: Vec::new(),
             realtime_ms: 2300,
+            aligned_starts: 0,
         };
-        vec![mk(Nam::Numbers, Mode::Direct), mk(Nam::Timestamps, Mode::BufDontFlush(512)), mk(Nam::NumbersDirect, Mode::Direct)]
+        let aligned = |nam: Nam, mode: Mode| {
+            let mut c = mk(nam, mode);
+            c.realtime_ms = 1;
+            c.aligned_starts = 4;
+            c
+        };
+        vec![
+            mk(Nam::Numbers, Mode::Direct),
+            mk(Nam::Timestamps, Mode::BufDontFlush(512)),
+            mk(Nam::NumbersDirect, Mode::Direct),
+            aligned(Nam::Timestamps, Mode::Direct),
+            aligned(Nam::NumbersDirect, Mode::BufDontFlush(512)),
+        ]
     }
     fn run(case: &Case) -> Outcome {
         if case.realtime_ms > 0 {
@@ -177,6 +191,9 @@ fn run_realtime(case: &Case) -> Outcome {
     let sc = Scratch::new("c09rt");
     let dir = sc.sub("logs");
     h().set_time(None);
+    if case.aligned_starts > 0 {
+        return run_aligned_starts(case, &sc, out);
+    }
     let sess = match Sess::start(&case.cfg, &dir, false, None, None) {
         Ok(s) => s,
         Err(e) => return Outcome::fail("start-failed", e),
@@ -232,6 +249,68 @@ fn run_realtime(case: &Case) -> Outcome {
         }
     }
     if seen.len() >= 3 && q > 100 {
+        out.nontrivial = true;
+    }
+    out
+}
+
+/// A logger that is started right after a period boundary of the wall clock: the file it creates
+/// is stamped by the file system's coarse clock, possibly with a time in the previous period. The
+/// first record, logged in the same second as the start, must not cause a rotation.
+fn run_aligned_starts(case: &Case, sc: &crate::util::Scratch, mut out: Outcome) -> Outcome {
+    out.class("real-time-start-at-boundary");
+    let mut judged = 0;
+    for i in 0..case.aligned_starts {
+        let dir = sc.sub(&format!("aligned{i}"));
+        // wait for the first 300 microseconds of a second (at most ~1.1 s)
+        let t0 = std::time::Instant::now();
+        loop {
+            let n = chrono::Local::now();
+            if n.timestamp_subsec_micros() < 300 || t0.elapsed() > std::time::Duration::from_millis(1500) {
+                break;
+            }
+            if n.timestamp_subsec_micros() < 990_000 {
+                std::thread::sleep(std::time::Duration::from_millis(5));
+            }
+        }
+        let a = chrono::Local::now().timestamp();
+        let sess = match Sess::start(&case.cfg, &dir, false, None, None) {
+            Ok(s) => s,
+            Err(e) => return Outcome::fail("start-failed", e),
+        };
+        sess.write(&crate::util::payload(0, i, 12));
+        sess.write(&crate::util::payload(0, i + 100, 12));
+        if i % 2 == 1 {
+            // the same for the file that reopen_output() creates after an external removal
+            sess.flush();
+            for e in crate::observe::snapshot(&dir) {
+                let _ = std::fs::remove_file(dir.join(&e.name));
+            }
+            let _ = sess.reopen();
+            sess.write(&crate::util::payload(0, i + 200, 12));
+            sess.write(&crate::util::payload(0, i + 300, 12));
+            out.class("real-time-reopen-at-boundary");
+        }
+        let b = chrono::Local::now().timestamp();
+        sess.shutdown();
+        if a != b {
+            continue; // start and records did not fit into one second: nothing to judge
+        }
+        judged += 1;
+        let snap = crate::observe::snapshot(&dir);
+        if snap.len() != 1 {
+            out.set_fail(
+                "real-time:rotation-within-the-period-of-the-start",
+                format!(
+                    "logger started and two records logged within wall-clock second {a}, Age::Second: {} files exist: {}",
+                    snap.len(),
+                    snap.iter().map(|e| format!("{}[{}B]", e.name, e.size)).collect::<Vec<_>>().join(", ")
+                ),
+            );
+            return out;
+        }
+    }
+    if judged > 0 {
         out.nontrivial = true;
     }
     out
